@@ -185,6 +185,7 @@ Proof.
   destruct St as [[-> [-> R]]|[KV [sl [cnt [-> [Jm Jf]]]]]].
   - destruct (ukind_of (h_kind h)) eqn:UK.
     + destruct (h_kind h); discriminate.
+    + destruct (h_kind h); discriminate.
     + (* FunctionNode: the audited name is f"{module}.{class}" *)
       cbn [contributes]. rewrite UK. unfold fn_unsafe, function_name.
       assert (KF : h_kind h = KFunction) by (destruct (h_kind h); try discriminate; reflexivity).
